@@ -639,7 +639,7 @@ func (r c02Run) cfg() string {
 
 func checkC02(c *Ctx) {
 	c.Assume("$ in BEGIN rules is not compared (the statement fixes $ = null for END only); BEGIN rules print their label only and are never written without a body")
-	c.Assume("$ in ENDFILE is not compared once the root cell of the round was assigned as a whole ($ = v in a BEGINFILE or ENDFILE rule, or in a pattern rule of a non-array root); member and element writes of the round are compared there")
+	c.Assume("$ in ENDFILE is not compared once the root cell of the round was assigned as a whole by a BEGINFILE rule or by a pattern rule of a non-array root; member and element writes of the round are compared there; $ = v in an ENDFILE rule is that rule's own: every ENDFILE rule after it must again see the selected root (JqDriver RuleLocal)")
 	c.Assume("writes: a body writes after its print, so every activation shows what the EARLIER activations left; $ = v in a BEGINFILE rule makes the root that scalar for the rest of the round (README: -r E is BEGINFILE { $ = E }); $.p = v is guarded by `$ is object`")
 	c.Assume("$file after the program overwrote it: compared within the round of the write (the written value) and from the next JSON value on (the file name again); in a later selector round of the same value it is left open")
 	c.Assume("multi-key objects (a member written into an object, the whole value selected by `$`) are expected with their keys in sorted order, as the interpreter prints them since the fix of F11")
@@ -758,7 +758,7 @@ func checkC02(c *Ctx) {
 			{fam: "cells", alpha: "cells", maxRules: 2, sel: all, nsel: "{0}"},
 			{fam: "sim", alpha: "cells", maxRules: 6, maxFiles: 3, maxVals: 3, maxArr: 3, sel: "{}", nsel: "{0, 1, 2}", sim: 100},
 		}
-		bounds["cells"] = "all lists <= 2 of writing rules (31 symbols: $ = v, $.p = v, $file = v after the print) x 6 fixed inputs (several values per file; selectors selecting the same subtree twice, a subtree and the whole value); 8 x 100 random behaviours with writing rules and such selector lists"
+		bounds["cells"] = "all lists <= 2 of writing rules (34 symbols: $ = v, $.p = v, $file = v after the print; BEGINFILE / ENDFILE without a body) x 6 fixed inputs (several values per file; selectors selecting the same subtree twice, a subtree and the whole value); 8 x 100 random behaviours with writing rules and such selector lists"
 		bounds["rules"] = "all rule lists <= 2 over the 30-symbol alphabet x 6 fixed inputs, <= 3 x fixed input " + big + ", <= 4 over the 8-symbol core alphabet x input 6"
 		bounds["inputs"] = "file arguments <= 2, values per file <= 1, nsel 0..2, and file arguments <= 3 with nsel 0; every argument names a new path or one given before (a a, a b a, a a b, a b b, a a a); 6 root shapes x 6 fixed rule lists"
 		bounds["sim"] = "8 x 200 random behaviours: rules <= 6, files <= 3, values <= 3, array length <= 3, nsel <= 2"
@@ -775,7 +775,7 @@ func checkC02(c *Ctx) {
 			{fam: "cells", alpha: "cells", maxRules: 3, sel: "{3}", nsel: "{0}"},
 			{fam: "sim", alpha: "cells", maxRules: 6, maxFiles: 3, maxVals: 3, maxArr: 3, sel: "{}", nsel: "{0, 1, 2}", sim: 2000},
 		}
-		bounds["cells"] = "all lists <= 2 of writing rules (31 symbols: $ = v, $.p = v, $file = v after the print) x 6 fixed inputs (several values per file; selectors selecting the same subtree twice, a subtree and the whole value), <= 3 x input 3; 8 x 2000 random behaviours with writing rules and such selector lists"
+		bounds["cells"] = "all lists <= 2 of writing rules (34 symbols: $ = v, $.p = v, $file = v after the print; BEGINFILE / ENDFILE without a body) x 6 fixed inputs (several values per file; selectors selecting the same subtree twice, a subtree and the whole value), <= 3 x input 3; 8 x 2000 random behaviours with writing rules and such selector lists"
 		bounds["rules"] = "all rule lists <= 3 over the 30-symbol alphabet x 6 fixed inputs; <= 5 over the 8-symbol core alphabet x input 6, <= 4 x inputs 1..3"
 		bounds["inputs"] = "file arguments <= 2, values per file <= 2 (nsel 0, 1) / <= 1 (nsel 2), and file arguments <= 3 with one value and nsel 0, 1; every argument names a new path or one given before; 6 root shapes x 6 fixed rule lists"
 		bounds["sim"] = "8 x 4000 random behaviours: rules <= 6, files <= 3, values <= 3, array length <= 3, nsel <= 2"
